@@ -32,7 +32,7 @@ fn run_one(rep: &mut Report, b: &Branch, bits: &Bits, n: &mut u64, f: &ExpF, sha
 const AT: u8 = 0;
 const SP: u8 = 32;
 
-fn shapes(k: usize, r: &mut Rng) -> Vec<(String, Vec<u8>)> {
+pub fn shapes(k: usize, r: &mut Rng) -> Vec<(String, Vec<u8>)> {
     let mut v: Vec<(String, Vec<u8>)> = Vec::new();
     let letters = |r: &mut Rng, n: usize| -> Vec<u8> { (0..n).map(|_| 1 + r.below(26) as u8).collect() };
     v.push(("all-at".into(), vec![AT; k]));
@@ -241,6 +241,7 @@ pub fn run(ctx: &Ctx, rep: &mut Report) {
         }
     }
     super::c14::giant_buffer_probe(ctx, rep, PID, gen::pm(&[13]), &mut r);
+    super::c04::corner_sampler(ctx, rep, PID, 13, &mut r, 20_000, 400_000);
     rep.require("decoded");
     rep.sample(3, || {
         let mut o = J::obj();
